@@ -114,6 +114,27 @@ def run(prog: Program, col: Collector, tier: str, refs: Optional[Refs] = None, c
     cat = cat or Catalogue(prog, refs)
     sibs = _sib(prog)
     roles = {f.fq: _roles(f) for f in sibs}
+    snapshot = {}
+    for f in sibs:
+        if "otf" not in roles[f.fq]:
+            # the pending ordinals are consumed by a `for` over (a copy / sorted view of) the map although factors are re-queued into it
+            for st in walk_no_nested(f.node):
+                if isinstance(st, ast.Assign) and len(st.targets) == 1 and isinstance(st.targets[0], ast.Name) and isinstance(st.value, ast.Call) and norm(st.value.func).endswith("defaultdict"):
+                    X = st.targets[0].id
+                    for lp in walk_no_nested(f.node):
+                        if isinstance(lp, ast.For) and any(isinstance(y, ast.Name) and y.id == X for y in ast.walk(lp.iter)) and any(
+                                isinstance(c, ast.Call) and isinstance(c.func, ast.Attribute) and c.func.attr == "append" and isinstance(c.func.value, ast.Subscript)
+                                and norm(c.func.value.value) == X for c in ast.walk(lp)):
+                            snapshot[f.fq] = (lp, X)
+    sibs_ok = [f for f in sibs if f.fq not in snapshot]
+    if snapshot:
+        col.rule("R09.2", "elimination is leaf-first: the next ordinal is a longest one", floor=1)
+        for fq, (lp, X) in snapshot.items():
+            col.violation(f"{fq}::for {norm(lp.target)} in {norm(lp.iter)[:40]}", f"the pending ordinals are visited by a `for` over `{norm(lp.iter)[:40]}` - a snapshot of `{X}` taken "
+                          f"before the loop - while factors are re-queued into `{X}` inside the loop: an ordinal that first appears through a re-queue (a summed group continuing at the "
+                          "union of its remaining variables' ordinals) is never eliminated, and one emptied meanwhile is visited again; the loop has to ask for the longest PENDING "
+                          "ordinal each time", prog.funcs[fq].loc(lp))
+        sibs = sibs_ok
     for f in sibs:
         missing = [k for k in ("otf", "leaf", "v2o", "ordinal", "requeue_key") if k not in roles[f.fq]]
         if missing:
@@ -140,7 +161,8 @@ def run(prog: Program, col: Collector, tier: str, refs: Optional[Refs] = None, c
             col.unresolved(construct, "accumulation of the ordinal not recognised", f.loc(st))
 
     # ---------------------------------------------------------------- R09.2
-    col.rule("R09.2", "elimination is leaf-first: the next ordinal is a longest one", floor=3)
+    if not snapshot:
+        col.rule("R09.2", "elimination is leaf-first: the next ordinal is a longest one", floor=3)
     for f in sibs:
         r = roles[f.fq]
         st, X = r["leaf_stmt"], r["otf"]
